@@ -92,6 +92,7 @@ func pow(b, e int) int {
 func runC03(c *Cfg) {
 	r := c.Rep
 	runSpecial(c, "C03", "zero-value-nodes")
+	runSpecial(c, "C03", "zero-size-pointer-nodes")
 	runSpecial(c, "C03", "default-post")
 	// 1. exhaustive small space
 	type space struct{ nn, tables, scripts int }
